@@ -706,6 +706,10 @@ class CallMixin:
         k = self.ev(node.args[1], p, fc)[0].v
         return [Res(p, VInt(ks.pos(as_int(self.spec_coerce(k)))))]
 
+    def sp_last_alloc(self, node, p, fc):
+        """the most recently allocated object"""
+        return [Res(p, VRef(next_ref(p) - 1))]
+
     def sp_obj_at(self, node, p, fc):
         """obj_at(i): the object with reference number i (to quantify over all objects)"""
         v = self.ev(node.args[0], p, fc)[0].v
